@@ -400,6 +400,9 @@ def _wrap(v, ti):
     return v
 
 
+CALL_HOOK = [None]      # optional: f(name, [argument values]) -> int | None, for calls the evaluator does not model itself
+
+
 def ieval(e, env):
     """value of the typed integer expression e (C semantics of the analysed target) with slot variables bound by env
     {name: unsigned bit pattern}.  Raises EvalTrap when trap(kind) is called, EvalUB on undefined behaviour."""
@@ -504,6 +507,10 @@ def ieval(e, env):
             if kind == 'clz':
                 return w - v.bit_length()
             return (v & -v).bit_length() - 1
+        if CALL_HOOK[0] is not None:
+            r_ = CALL_HOOK[0](e.x, [ieval(a_, env) for a_ in e.a])
+            if r_ is not None:
+                return _wrap(r_, ti) if ti[0] == 'int' else r_
         raise EvalUnknown('call of %s' % e.x)
     raise EvalUnknown('node %s' % e.k)
 
